@@ -169,6 +169,51 @@ def gen_mail() -> str:
             if isinstance(n, ast.JoinedStr):
                 fpieces.append([v.value if isinstance(v, ast.Constant) else "{" + ast.unparse(v.value) + "}" for v in n.values])
 
+    # --- text steps: __post_init__, header unfolding, decode sites, white space set, single-byte codec tables
+    eml = fresh_import("sharepoint2text.parsing.extractors.mail.eml_email_extractor")
+    post = _func(d_ast, "__post_init__", cls="EmailContent")
+    post_init = [ast.unparse(st) for st in _strip_doc(post)]
+    py_ws = [c for c in range(0x110000) if chr(c).isspace()]
+    folding = []
+    for tag, mod in (("mbox", mbox), ("eml", eml)):
+        pat_f = getattr(mod, "HEADER_FOLDING_PATTERN", None)
+        folding.append((tag, pat_f.pattern if pat_f is not None and isinstance(pat_f.pattern, str) else "MISSING",
+                        int(pat_f.flags) if pat_f is not None else 0))
+
+    def _subject_expr(fn):
+        for stmt in _strip_doc(fn):
+            for n in ast.walk(stmt):
+                if isinstance(n, ast.Call) and isinstance(n.func, ast.Name) and n.func.id == "EmailContent":
+                    for k in n.keywords:
+                        if k.arg == "subject":
+                            return ast.unparse(k.value)
+        return "MISSING"
+
+    subject_exprs = [("mbox", _subject_expr(pem)), ("eml", _subject_expr(reml))]
+    unf = getattr(mbox, "_unfold_header_value", None)
+    unfold_probe = [ord(c) for c in unf("a\n b\r\n\tc\nd\r\n e \r \n")] if unf else []
+    decode_sites, charset_bindings = [], []
+    for fn in m_ast.body:
+        if not isinstance(fn, (ast.FunctionDef, ast.AsyncFunctionDef)):
+            continue
+        found = []
+        for stmt in _strip_doc(fn):
+            for n in ast.walk(stmt):
+                if isinstance(n, ast.Call) and isinstance(n.func, ast.Attribute) and n.func.attr == "decode":
+                    err = [ast.unparse(k.value).strip("'\"") for k in n.keywords if k.arg == "errors"] + \
+                          [ast.unparse(a).strip("'\"") for a in n.args[1:2]]
+                    found.append((n.lineno, n.col_offset, "d", (fn.name, ast.unparse(n.func.value),
+                                                                 ast.unparse(n.args[0]) if n.args else "", err[0] if err else "strict")))
+                if isinstance(n, ast.Assign) and any(isinstance(t, ast.Name) and t.id == "charset" for t in n.targets):
+                    found.append((n.lineno, n.col_offset, "b", (fn.name, ast.unparse(n.value))))
+        for _, _, k, v in sorted(found):
+            (decode_sites if k == "d" else charset_bindings).append(v)
+    # where the decoding sits (which function, how often) is free; what it decodes with is not
+    decode_sites = sorted({v[2:] for v in decode_sites})
+    charset_bindings = sorted({v[1] for v in charset_bindings})
+    codec_tables = [(name, [ord(bytes([b]).decode(name, "replace")) for b in range(256)])
+                    for name in ("us-ascii", "iso-8859-1", "iso-8859-15", "windows-1252", "koi8-r")]
+
     L = [HEADER.format(src=f"{MBOX}, {EML}, {DT}")]
     L.append("namespace S2T.Gen.Mail\n")
     L.append("/-- `MBOX_FROM_PATTERN.pattern` (bytes, shown as latin-1) and `.flags` -/")
@@ -197,6 +242,25 @@ def gen_mail() -> str:
     L.append("def emlAttachmentKeys : List String := " + lean_list(lean_str(s) for s in eml_att_keys) + "\n")
     L.append("/-- pieces of the f-strings in `iterate_supported_attachments` -/")
     L.append("def routeFStrings : List (List String) := " + lean_list("[" + ", ".join(lean_str(x) for x in p) + "]" for p in fpieces) + "\n")
+    L.append("/-- statements of `EmailContent.__post_init__` (ast.unparse) -/")
+    L.append("def postInit : List String := " + lean_list(lean_str(x) for x in post_init) + "\n")
+    L.append("/-- code points with `str.isspace()` in the running interpreter -/")
+    L.append("def pyWhitespace : List Nat := [" + ", ".join(map(str, py_ws)) + "]\n")
+    L.append("/-- `HEADER_FOLDING_PATTERN` of both extractors: (extractor, pattern, flags) -/")
+    L.append("def foldingPatterns : List (String × String × Nat) := " + lean_list(
+        f"({lean_str(t)}, {lean_str(pp)}, {fl})" for t, pp, fl in folding) + "\n")
+    L.append("/-- the expression passed as `subject=` to `EmailContent(...)` -/")
+    L.append("def subjectExprs : List (String × String) := " + lean_list(f"({lean_str(t)}, {lean_str(x)})" for t, x in subject_exprs) + "\n")
+    L.append("/-- what the running `_unfold_header_value` makes of `a\\n b\\r\\n\\tc\\nd\\r\\n e \\r \\n` (code points) -/")
+    L.append("def unfoldProbe : List Nat := [" + ", ".join(map(str, unfold_probe)) + "]\n")
+    L.append("/-- the distinct (codec argument, errors) of all `.decode(` calls of the mbox extractor -/")
+    L.append("def decodeSites : List (String × String) := " + lean_list(
+        "(" + ", ".join(lean_str(x) for x in v) + ")" for v in decode_sites) + "\n")
+    L.append("/-- the distinct values assigned to a variable `charset` in the mbox extractor -/")
+    L.append("def charsetBindings : List String := " + lean_list(lean_str(b) for b in charset_bindings) + "\n")
+    L.append("/-- `bytes([b]).decode(codec, 'replace')` for b = 0..255 of the running single-byte codecs -/")
+    L.append("def codecTables : List (String × List Nat) := " + lean_list(
+        f"({lean_str(n)}, [{', '.join(map(str, t))}])" for n, t in codec_tables) + "\n")
     L.append("/-- translator cross-check notes; must be empty -/")
     L.append("def notes : List String := " + lean_list(lean_str(n) for n in notes) + "\n")
     L.append("end S2T.Gen.Mail\n")
